@@ -229,6 +229,16 @@ m("M08i_rg_wrong_kw", ["C08"], [("pdf/src/content.rs", 'Op::FillColor { color: C
 m("M08j_linecap", ["C08"], [("pdf/src/content.rs", "                    1 => LineCap::Round,\n                    2 => LineCap::Square,", "                    2 => LineCap::Round,\n                    1 => LineCap::Square,")], expect="C08-TABLE")
 m("M08k_y_c2", ["C08"], [("pdf/src/content.rs", "push(Op::CurveTo { c1, c2: p, p });", "push(Op::CurveTo { c1, c2: c1, p });")], expect="C08-TABLE", note="y's second control point")
 
+# ------------------------------------------------------------------ C10
+m("M10a_fulfil_skip_last", ["C10"], [("pdf/src/build.rs", "        for (page, promise) in self.pages.into_iter().zip(kids_promise) {", "        let n = kids_promise.len();\n        for (page, promise) in self.pages.into_iter().zip(kids_promise).take(n.saturating_sub(1).max(1)) {")],
+  expect="C10-PAIR", note="documents with two or more pages lose the last page: /Kids points at an undefined object")
+m("M10b_w_mismatch", ["C10"], [("pdf/src/xref.rs", "            w: vec![1, a_w, b_w],", "            w: vec![1, a_w.max(2), b_w],")], expect="C10-SIB", note="only wrong when offsets fit one byte")
+m("M10c_length_other", ["C10"], [("pdf/src/object/stream.rs", '                info.insert("Length", Primitive::Integer(data.len() as _));\n                StreamInner::Pending { data: data.clone() }', '                info.insert("Length", Primitive::Integer(data.len() as i32 + self.info.filters.len() as i32));\n                StreamInner::Pending { data: data.clone() }')],
+  expect="C10-PROV", note="wrong /Length only for filtered streams")
+m("M10d_index_one", ["C10"], [("pdf/src/xref.rs", "            index: vec![0, size as u32],", "            index: vec![1, size as u32],")], expect="C10-SIB")
+m("M10e_entries_unbounded", ["C10"], [("pdf/src/xref.rs", "        for &x in self.entries.iter().take(size) {", "        for &x in self.entries.iter() {")], expect="C10-SIB", note="more entries than /Size when promises exist beyond the xref id")
+m("M10f_header", ["C10"], [("pdf/src/file.rs", 'backend: Vec::from(&b"%PDF-1.7\\n"[..]),', 'backend: Vec::from(&b"\\n%PDF-1.7\\n"[..]),')], expect="C10-G1")
+
 
 def gen_patch(mu):
     files = {}
